@@ -13,6 +13,10 @@ func init() {
 }
 
 func c14(c *q.Ctx) {
+	// "the validator set in force for that view": XPoA derives it from the block that is CURRENTLY three below the
+	// height on the ledger - every answer comes out of a ledger read made for this call (after a reorganisation the
+	// block at that height, and with it the set, is another one)
+	c.MemoFields("bcs/consensus/xpoa", "xpoaSchedule", map[string]string{}, "the validator set is read from the ledger on every call")
 	// a received proposal moves the pacemaker, the pending tree and a vote only after its justify passed CheckProposal -
 	// except the very first justify, which names the tree's GENESIS (not its current root: the root differs from
 	// genesis after a restart or a commit, and a forged justify naming it would by-pass the quorum check)
